@@ -358,7 +358,7 @@ class Staircase(Pbox):
         strategy:
             1) Try LP-based bounds.
             2) If that fails, try ECDF-based bounds.
-            3) If that also fails, set to NaN intervals so the program continues.
+            3) If that also fails, fall back to the bounds implied by the support.
 
         This function NEVER raises.
         """
@@ -390,6 +390,8 @@ class Staircase(Pbox):
             try:
                 mean_lo, var_lo = get_mean_var_from_ecdf(self.left, self._pvalues)
                 mean_hi, var_hi = get_mean_var_from_ecdf(self.right, self._pvalues)
+                if not np.all(np.isfinite([mean_lo, mean_hi, var_lo, var_hi])):
+                    raise ValueError("moments of the bounding distributions are not finite")
                 self.mean_lo, self.mean_hi = mean_lo, mean_hi
                 self.var_lo, self.var_hi = var_lo, var_hi
                 mean_I = I(self.mean_lo, self.mean_hi)
@@ -401,10 +403,13 @@ class Staircase(Pbox):
 
         # --- Last resort: make it unambiguous and safe ---
         if mean_I is None or var_I is None:
-            # Use NaN to signal “unknown/unavailable” without risking real-number collisions.
-            mean_I = I(666, 666)
-            var_I = I(666, 666)
-            method_used = method_used or "unavailable"
+            # what the support alone implies: the mean lies in it and, by Popoviciu's
+            # inequality, the variance is at most a quarter of its squared width
+            lo, hi = float(self.lo), float(self.hi)
+            width = hi - lo
+            mean_I = I(lo, hi)
+            var_I = I(0.0, width * width / 4)
+            method_used = method_used or "support_bounds"
 
         # --- Assign + annotate; nothing in here may raise ---
         self.mean = mean_I
